@@ -521,6 +521,18 @@ func main() {
 			continue
 		}
 		cs["wire"] = fmt.Sprintf("%s %s?%s [%s] -> %d", rec.verb, rec.path, rec.rawQuery, rec.methodHdr, rec.status)
+		// C15 on the generated client: the request path is the mounting prefix followed by exactly the resource path of the
+		// call (Call.tla ClientWire: resource names with a key after every collection segment that needs one)
+		{
+			segs := strings.Split(strings.TrimPrefix(rec.path, prefix), "/")
+			ok := len(segs) == len(row.Wire.Path)+1 && segs[0] == "" && strings.HasPrefix(rec.path, prefix)
+			for i := 0; ok && i < len(row.Wire.Path); i++ {
+				ok = row.Wire.Path[i] == "k" || segs[i+1] == row.Wire.Path[i]
+			}
+			if !ok {
+				violation("C15/generated-client/path/"+feat+"/ctx="+fmt.Sprint(row.Cfg.Ctx), fmt.Sprintf("request path %q, the resource path of the call is %v under prefix %q", rec.path, row.Wire.Path, prefix), cs)
+			}
+		}
 		if rec.status >= 200 && rec.status < 300 {
 			// envelopes (C03, last clause): headers and the shape of both bodies, as the protocol table prescribes
 			if rec.protoReq != "2.0.0" || rec.protoResp != "2.0.0" {
